@@ -86,6 +86,18 @@ impl TreeModel {
     pub fn root(&self) -> Fr {
         self.node(0, 0)
     }
+    /// every node of every level, computed bottom-up once (for trees up to depth 13): levels[l][k]
+    pub fn dense_levels(&self) -> Vec<Vec<Fr>> {
+        let mut levels: Vec<Vec<Fr>> = vec![vec![]; self.depth + 1];
+        let mut cur: Vec<Fr> = (0..self.cap()).map(|i| *self.leaves.get(&i).unwrap_or(&self.default_leaf)).collect();
+        levels[self.depth] = cur.clone();
+        for l in (0..self.depth).rev() {
+            let next: Vec<Fr> = cur.chunks(2).map(|c| if c[0] == self.defaults[l + 1] && c[1] == self.defaults[l + 1] { self.defaults[l] } else { hash2(&c[0], &c[1]) }).collect();
+            levels[l] = next.clone();
+            cur = next;
+        }
+        levels
+    }
     /// get_subtree_root(level, leaf_index) as the API defines it
     pub fn subtree_root(&self, level: usize, leaf_index: usize) -> Option<Fr> {
         if level > self.depth || leaf_index >= self.cap() {
